@@ -5,6 +5,21 @@ import json
 from . import common, doc as D
 
 
+def _one(job):
+    d, opts = job
+    svg = D.concretise(d)
+    r = D.convert(svg, **opts)
+    if r[0] == "ok":
+        try:
+            pr = D.project(r[1])
+            o = {"k": "ok", "layers": pr["layers"], "notes": pr["notes"]}
+        except Exception as e:  # noqa
+            o = {"k": "exc", "t": "projection:" + type(e).__name__ + ":" + str(e)[:80]}
+    else:
+        o = {"k": "exc", "t": r[1], "msg": r[2]}
+    return {"doc": d, "out": o}, (svg, r[1] if r[0] == "ok" else r[1] + ": " + r[2])
+
+
 def run_render(out, pid, focus, tier, nquick, nthorough, max_nodes=6, opts=None, wd=None,
                keep=lambda d: True, module="TraceRender", cfg="TraceRender.cfg"):
     opts = opts or {}
@@ -13,25 +28,16 @@ def run_render(out, pid, focus, tier, nquick, nthorough, max_nodes=6, opts=None,
     for g in gens:
         out.add_tlc(g)
     seen = set()
-    recs = []
-    texts = []
+    uniq = []
     for d in docs:
         key = json.dumps(d, sort_keys=True)
         if key in seen or not keep(d):
             continue
         seen.add(key)
-        svg = D.concretise(d)
-        r = D.convert(svg, **opts)
-        if r[0] == "ok":
-            try:
-                pr = D.project(r[1])
-                o = {"k": "ok", "layers": pr["layers"], "notes": pr["notes"]}
-            except Exception as e:  # noqa
-                o = {"k": "exc", "t": "projection:" + type(e).__name__ + ":" + str(e)[:80]}
-        else:
-            o = {"k": "exc", "t": r[1], "msg": r[2]}
-        recs.append({"doc": d, "out": o})
-        texts.append((svg, r[1] if r[0] == "ok" else r[1] + ": " + r[2]))
+        uniq.append((d, opts))
+    res = common.pmap(_one, uniq)
+    recs = [r for r, t in res]
+    texts = [t for r, t in res]
     verdicts, st, tr = common.validate_traces(module, cfg, recs, wd, chunk=4000, timeout=7200,
                                               env={"DENSE": "1" if tier == "thorough" else "0"})
     cov = out.coverage
